@@ -799,7 +799,25 @@ impl DnsSim {
                 }
             }
             Kind::WrongQName => {
-                qname = match rng.below(4) {
+                qname = match rng.below(6) {
+                    4 | 5 => {
+                        // near miss: one octet differs from the query in a single bit - bit 5 of a
+                        // non-letter ("case folding" applied to digits, '-' or '_'), or any other bit
+                        let mut n = qname.clone();
+                        let l = rng.usize_below(n.len().max(1));
+                        if let Some(lab) = n.get_mut(l) {
+                            let cands: Vec<usize> = (0..lab.len()).filter(|i| !lab[*i].is_ascii_alphabetic()).collect();
+                            if !cands.is_empty() && rng.chance(2, 3) {
+                                let p = *rng.pick(&cands);
+                                lab[p] ^= 0x20;
+                            } else if !lab.is_empty() {
+                                let p = rng.usize_below(lab.len());
+                                let bit = *rng.pick(&[0x01u8, 0x02, 0x04, 0x08, 0x10, 0x40, 0x80]);
+                                lab[p] ^= bit;
+                            }
+                        }
+                        n
+                    }
                     0 => other_name.clone(),
                     1 => {
                         // one label more
